@@ -15,7 +15,7 @@ UN_LABELS = [-1, 0, 7, 'nan']
 def experiment_frame_spec(draw, purpose):
   """purpose in {'c06', 'c07', 'c18', 'c19'}."""
   colab = draw(st.integers(0, 3)) == 0
-  scen = draw(st.sampled_from(['fixed', 'variable'] * 3 + (['ctl_test_only', 'pre_only', 'trt_always_on'] if purpose == 'c07' else ['trt_always_on']))) if purpose in ('c07', 'c18') else None
+  scen = draw(st.sampled_from(['fixed', 'variable'] * 3 + (['ctl_test_only', 'pre_only', 'trt_always_on', 'un_pre_only'] if purpose == 'c07' else ['trt_always_on']))) if purpose in ('c07', 'c18') else None
   min_pre = 8 if purpose == 'c19' else (10 if (purpose == 'c07' and scen == 'variable') else 3)
   n_pre = draw(st.one_of(st.integers(min_pre, min_pre + 3), st.integers(min_pre, 40), st.integers(min_pre, 40))
                if purpose != 'c06' else
@@ -28,7 +28,7 @@ def experiment_frame_spec(draw, purpose):
   N = n_before + n_pre + n_test + n_cool + n_after
   n_c = draw(st.integers(1, 5))
   n_t = draw(st.integers(1, 5))
-  n_u = draw(st.integers(1, 2)) if (colab or (purpose == 'c06' and draw(st.booleans()))) else 0
+  n_u = draw(st.integers(1, 2)) if (colab or scen == 'un_pre_only' or (purpose == 'c06' and draw(st.booleans()))) else 0
   if purpose == 'c19':
     total = draw(st.integers(2, 12))
     n_c = draw(st.integers(1, total - 1))
@@ -59,6 +59,8 @@ def experiment_frame_spec(draw, purpose):
       'str_ids': draw(st.booleans()),
       'dup_index': draw(st.sampled_from([0, 0, 0, 2, 5])),
       'int_values': draw(st.integers(0, 4)) == 0,
+      'int_scale': draw(st.sampled_from([1, 1, 10 ** 6])),          # whole units, or e.g. revenue in micros (int64 totals > 2^31)
+      'nan_extra_col': draw(st.integers(0, 3)) == 0,                # a secondary metric column with missing values
       # excluded days (period label -1) inside the pre-test / test / cooldown span, e.g. a holiday taken out of the analysis
       'holes': sorted(set(draw(st.lists(st.integers(0, N - 1), max_size=3)))) if (purpose in ('c06', 'c07', 'c18') and draw(st.integers(0, 3)) == 0) else [],
       'ctl_cool_cost': draw(st.sampled_from([0, 0, 3, 15])),
@@ -174,6 +176,13 @@ def materialise(spec, drop_unassigned=False, permute=True, split_first_treatment
           ce = np.asarray(cs['cnoise'][gi], float)
           c = g['clv'] * 8.0 + ce / 16.0 + cs['cost_lift'] * is_test
           c = np.maximum(c, 1.0 / 64)
+      elif cs['scenario'] == 'un_pre_only':
+        # only an unassigned (excluded) geo spends before the test; treatment spends in the test
+        c = np.zeros(N)
+        if g['g'] == 't':
+          c = g['clv'] * cs['spend'] * is_test * 1.0
+        elif g['g'] == 'u':
+          c = (g['clv'] / 2.0) * np.array([s_ == 'pre' for s_ in sem]) * 1.0
       elif cs['scenario'] in ('fixed', 'ctl_test_only', 'pre_only'):
         c = np.zeros(N)
         if g['g'] == 't':
@@ -193,7 +202,7 @@ def materialise(spec, drop_unassigned=False, permute=True, split_first_treatment
           c = c + cs['cost_lift'] * is_test
       c = np.round(c * 1024) / 1024
     if spec.get('int_values'):
-      v = np.floor(v)
+      v = np.floor(v) * spec.get('int_scale', 1)
       if c is not None and spec['cost']['scenario'] in ('fixed', 'variable'):
         c = np.floor(c)
     if g['g'] == 'c':
@@ -211,7 +220,9 @@ def materialise(spec, drop_unassigned=False, permute=True, split_first_treatment
       if glabel in (lab['group_control'], lab['group_treatment']):
         glabel = -1
       if glabel == 'nan':
-        glabel = float('nan')
+        # (rows without a group label are dropped by the aggregation; in the un_pre_only scenario the spending geo
+        # must be a labelled, excluded geo)
+        glabel = -1 if (has_cost and spec['cost']['scenario'] == 'un_pre_only') else float('nan')
     parts = [(v, c)]
     if split_first_treatment and g['g'] == 't' and n_split == 0:
       n_split = 1
@@ -237,6 +248,10 @@ def materialise(spec, drop_unassigned=False, permute=True, split_first_treatment
     # integer-typed measurements (whole units; the arrays were floored before the totals were accumulated)
     for k in (names['key_response'],) + ((names['key_cost'],) if (has_cost and spec['cost']['scenario'] in ('fixed', 'variable')) else ()):
       df[k] = df[k].astype('int64')
+  if spec.get('nan_extra_col'):
+    extra = np.arange(len(df), dtype=float)
+    extra[::3] = np.nan
+    df['clicks'] = extra
   if spec.get('missing_row') is not None and len(df) > 4:
     df = df.drop(index=df.index[spec['missing_row'] % len(df)]).reset_index(drop=True)     # one geo misses one day
   if permute and spec['perm_seed']:
